@@ -225,6 +225,52 @@ func runC20(r *Run) {
 		r.Floor("R8", "late-bound process-local fields", len(keys), 1)
 	}
 
+	// R9: memory stores are rebuilt at construction
+	r.Rule("R9", "PATH.memory-stores-rebuilt-on-load: the app mounts memory stores (x/capability's forward/reverse indexes of the IBC port and channel capabilities, never written to disk). The only rebuild in the SDK is the module's begin blocker, so on a restarted node every capability lookup fails until its first block — CheckTx of relayer messages (RedundantRelayDecorator executes them), simulations of IBC transfers and the ICS-20 precompile under eth_call answer 'capability not found' where a node that kept running answers normally. NewHaqq therefore calls the capability keeper's InitMemStore after LoadLatestVersion, guarded by nothing but 'there is committed state' (LastBlockHeight) and the load's own error")
+	if nh, ok := P.FnOK("app.NewHaqq"); ok {
+		var mounts, load, initMem ssa.Instruction
+		for _, g := range withAnon(nh) {
+			eachCall(g, func(ci CallInfo) {
+				switch ci.Name {
+				case "MountMemoryStores":
+					mounts = ci.Instr
+				case "LoadLatestVersion":
+					load = ci.Instr
+				case "InitMemStore":
+					if strings.HasSuffix(ci.PkgPath, "x/capability/keeper") {
+						initMem = ci.Instr
+					}
+				}
+			})
+		}
+		if mounts == nil {
+			r.OK("R9", "app.NewHaqq#no-memory-stores", P.Pos(fnPos(nh)), "no memory store is mounted")
+		} else if load == nil {
+			r.Bad("R9", "anchor/NewHaqq.LoadLatestVersion", P.Pos(fnPos(nh)), "NewHaqq mounts memory stores but the LoadLatestVersion call was not found")
+		} else {
+			ok := initMem != nil && initMem.Parent() == load.Parent() && dominates(load.Block(), initMem.Block())
+			detail := ""
+			if ok {
+				// every branch between the load and the rebuild asks only whether there is committed state / the load failed
+				for _, b := range load.Parent().Blocks {
+					ifi, isIf := lastIf(b)
+					if !isIf || !dominates(load.Block(), b) || !dominates(b, initMem.Block()) || b == initMem.Block() {
+						continue
+					}
+					sl := backSlice(ifi.Cond)
+					fine := sl.Has(load.(ssa.Value)) || sl.HasCall(func(g CallInfo) bool { return g.Name == "LastBlockHeight" })
+					if b != load.Block() && !fine {
+						ok, detail = false, " (the rebuild is conditional on "+P.Pos(ifi.Pos())+", which asks something other than 'is there committed state')"
+					}
+				}
+			}
+			r.Check(ok, "R9", "app.NewHaqq#capabilities-rebuilt-after-load", P.Pos(instrPos(load)), "InitMemStore follows LoadLatestVersion",
+				"NewHaqq mounts memory stores but does not rebuild the capability keeper's memory store after LoadLatestVersion"+detail+": on a node restarted at height h every capability lookup answers 'not found' until block h+1 — CheckTx(MsgRecvPacket) returns code 7 and Simulate(MsgTransfer) fails with 'channel capability not found' while the node that never stopped accepts both")
+		}
+	} else {
+		r.Bad("R9", "anchor/app.NewHaqq", "", "not found")
+	}
+
 	// ---------- R5 ----------
 	r.Rule("R5", "TABLE.memory-stores: memory stores are empty after a restart. NewHaqq creates memory store keys only for the tabled dependency module that rebuilds its memory store itself (capability); no Haqq keeper is wired with a memory store key and no Haqq function passes a *MemoryStoreKey to ctx.KVStore — a consensus value parked in a memory store is gone on a restarted node")
 	{
@@ -311,6 +357,20 @@ func runC20(r *Run) {
 			nK++
 			eachCall(fn, func(ci CallInfo) {
 				if (ci.Name == "NewUncachedContext" || ci.Name == "NewContext") && (ci.Recv == "BaseApp" || ci.Recv == "Haqq") {
+					// a context whose only use is the rebuild of the memory stores (R9) writes nothing that is persisted
+					if v, isV := ci.Instr.(ssa.Value); isV && v.Referrers() != nil && len(*v.Referrers()) > 0 {
+						onlyMem := true
+						for _, u := range *v.Referrers() {
+							uc, isCall := u.(ssa.CallInstruction)
+							if !isCall || callInfo(uc).Name != "InitMemStore" || !strings.HasSuffix(callInfo(uc).PkgPath, "x/capability/keeper") {
+								onlyMem = false
+							}
+						}
+						if onlyMem {
+							r.OK("R6", fnID(fn)+"#context-for-the-memory-store-only", P.Pos(instrPos(ci.Instr)), "the context is handed to the capability keeper's InitMemStore alone, which reads the persisted owners and writes the memory store only")
+							return
+						}
+					}
 					bad++
 					r.Bad("R6", fnID(fn)+"#creates-context/"+ci.Name, P.Pos(instrPos(ci.Instr)), "the node's start-up path creates a context on the committed stores ("+ci.Name+"): whatever is read or written through it happens outside any block and only on a node that (re)starts — e.g. AccountKeeper.GetModuleAccount creating module accounts and bumping the account number, which changes the next app hash", sc.K.Chain(fn)...)
 				}
